@@ -293,7 +293,7 @@ impl Scenario for C20 {
     }
     fn plan(&self, thorough: bool, seed: u64) -> Vec<CaseSpec> {
         let seqs = sequences();
-        let per = if thorough { 60 } else { 6 };
+        let per = if thorough { 100 } else { 12 };
         let mut v = Vec::new();
         for (i, _) in seqs.iter().enumerate() {
             for s in seeds_for("C20", "batch", seed.wrapping_add(i as u64 * 7919), per) {
